@@ -33,6 +33,9 @@ type c10Op struct {
 	K          int           // header-buffered: bytes of the next frame's header that arrive together with the message in front of it
 	PeerPing   bool          // reads that succeed: the peer sends a Ping in front of the message...
 	PongStall  time.Duration // ...and takes no bytes (so that the Pong cannot leave) for this long
+	// SharedPrev (last op, cancel-during): the call that blocks runs under the SAME context as the successful call before
+	// it (an application that uses one context for a whole exchange): the context must bound this call just the same
+	SharedPrev bool
 }
 
 type c10Case struct {
@@ -89,6 +92,9 @@ func genC10(rt *rapid.T) c10Case {
 			if o.Len < 3 {
 				o.Len = 300
 			}
+			if o.Ctx == "cancel-during" && i > 0 && c.Ops[i-1].Kind != "lockwait" {
+				o.SharedPrev = rapid.IntRange(0, 2).Draw(rt, "sameContextAsThePreviousCall") == 0
+			}
 		} else {
 			o.Ctx = rapid.SampledFrom([]string{"cancel-after", "cancel-after", "deadline-after", "background"}).Draw(rt, "ctx")
 			if o.Ctx == "deadline-after" {
@@ -103,6 +109,7 @@ func genC10(rt *rapid.T) c10Case {
 }
 
 type c10Result struct {
+	SharedCtx  bool
 	NonTrivial bool
 	During     bool
 	LockWait   bool
@@ -402,6 +409,8 @@ func runC10(t fataler, c c10Case) (string, c10Result) {
 		return ""
 	}
 
+	var sharedCtx context.Context
+	var sharedCancel context.CancelFunc
 	wireSeen := 0 // outbound data frames accounted for
 	cancelledAfterInteresting := false
 	for i, o := range c.Ops {
@@ -422,6 +431,17 @@ func runC10(t fataler, c c10Case) (string, c10Result) {
 			break
 		}
 		ctx, cancel := mkCtx(o)
+		if i+1 < len(c.Ops) && c.Ops[i+1].SharedPrev {
+			// this call and the next one share one context, which ends while the next one is blocked
+			cancel()
+			ctx, cancel = context.WithCancel(base)
+			sharedCtx, sharedCancel = ctx, cancel
+			o.Ctx = "background" // nothing happens to it after this call's success
+			res.SharedCtx = true
+		} else if o.SharedPrev && sharedCtx != nil {
+			cancel()
+			ctx, cancel = sharedCtx, sharedCancel
+		}
 		during := o.Ctx == "cancel-during" || o.Ctx == "deadline-during"
 		payload := expand(ckText, uint64(i)*31+7, o.Len)
 		var staleWriter io.WriteCloser
@@ -740,6 +760,9 @@ func TestC10(t *testing.T) {
 			if o.Ctx == "cancel-during" || o.Ctx == "deadline-during" {
 				classes = append(classes, "during:"+o.Kind+"/"+o.Block)
 			}
+		}
+		if res.SharedCtx {
+			classes = append(classes, "blocked-call-shares-its-context-with-the-successful-call-before-it")
 		}
 		if res.LockWait {
 			classes = append(classes, "write-gave-up-waiting-for-an-open-message")
